@@ -151,6 +151,26 @@ def _inside_section(txt, lineno):
     return depth > 0
 
 
+def cone_of(rels):
+    """transitive OSU.* imports of the given files (textual scan of Require lines)"""
+    seen = []
+    todo = list(rels)
+    while todo:
+        r = todo.pop()
+        if r in seen or not os.path.exists(os.path.join(COQ, r)):
+            continue
+        seen.append(r)
+        txt = strip_coq_comments(open(os.path.join(COQ, r)).read())
+        for m in re.finditer(r"From\s+OSU\.(\w+)\s+Require\s+(?:Import|Export)?\s*([^.]*)\.", txt):
+            for name in m.group(2).split():
+                todo.append("%s/%s.v" % (m.group(1), name))
+        for m in re.finditer(r"Require\s+(?:Import|Export)?\s*((?:OSU\.\w+\.\w+\s*)+)\.", txt):
+            for q in m.group(1).split():
+                a = q.split(".")
+                todo.append("%s/%s.v" % (a[1], a[2]))
+    return seen
+
+
 def theorems_of(rel):
     txt = strip_coq_comments(open(os.path.join(COQ, rel)).read())
     return re.findall(r"^\s*Theorem\s+([A-Za-z0-9_']+)", txt, re.M)
